@@ -325,6 +325,19 @@ func run(c Case) *stat.Failure {
 	if o.f == nil {
 		return nil
 	}
+	if !o.soft && o.f.Sig == "call-failed-after-close" {
+		// a call that ran into its 1.2 s timeout: on an overloaded machine that is not yet
+		// proof; the histories that break this property reproduce, so confirm twice, alone
+		for i := 0; i < 2; i++ {
+			time.Sleep(300 * time.Millisecond)
+			p := runOnce(c)
+			if p.f == nil || p.soft {
+				st.Inconclusive()
+				return nil
+			}
+		}
+		return o.f
+	}
 	if !o.soft {
 		return o.f
 	}
